@@ -200,6 +200,14 @@ func (t c18SStreamable) StreamableRun(ctx context.Context, args string, opts ...
 
 func c18SParts(c *c18Case) *c18Parts {
 	p := &c18Parts{model: c18SModel{}, tcModel: c18STCModel{}}
+	// the unknown-tools handler belongs to the calling run like a tool does, and parks like one
+	p.runOf = func(ctx context.Context) (*c18Recorder, func()) {
+		h := c18SOf(ctx)
+		if h == nil {
+			return nil, nil
+		}
+		return h.rec, func() { h.park(fmt.Sprintf("tools-%d", h.calls())) }
+	}
 	for _, t := range c.Tools {
 		if t.Streamable {
 			p.tools = append(p.tools, c18SStreamable{c18STool{t}})
@@ -601,7 +609,7 @@ func c18GenShared(r *vh.Rand, base *c18Case) *c18Case {
 				if j == k-1 && r.Chance(80) {
 					ncalls = 0
 				}
-				script = append(script, c18GenReply(r, j, ncalls, names, false))
+				script = append(script, c18GenReply(r, j, ncalls, names, false, c18Ghost(&c)))
 			}
 		}
 		mode := "generate"
